@@ -5,15 +5,24 @@ import json, os, shutil, sys
 pid, m, detected, needs = sys.argv[1:5]
 rest = sys.argv[5:]
 head_patch = note = None
+srcdir = None
+base = '5b8bfa1'
+name = None
 while rest:
+    if rest[0] == '--src':
+        srcdir = rest[1]; rest = rest[2:]; continue
+    if rest[0] == '--base':
+        base = rest[1]; rest = rest[2:]; continue
+    if rest[0] == '--name':
+        name = rest[1]; rest = rest[2:]; continue
     if rest[0] == '--head-patch':
         head_patch = rest[1]; rest = rest[2:]
     elif rest[0] == '--note':
         note = rest[1]; rest = rest[2:]
     else:
         raise SystemExit('bad args %r' % rest)
-src = '/tmp/seed/%s/out/%s' % (pid, m)
-dst = '/verif/seeded/%s-%s' % (pid, m)
+src = srcdir or '/tmp/seed/%s/out/%s' % (pid, m)
+dst = '/verif/seeded/%s-%s' % (pid, name or m)
 os.makedirs(dst, exist_ok=True)
 for f in ('patch.diff', 'demo.py', 'notes.md'):
     shutil.copy(os.path.join(src, f), os.path.join(dst, f))
@@ -21,11 +30,12 @@ meta = {
     'property': pid,
     'breaks': json.loads([l for l in open('/verif/properties.jsonl') if json.loads(l)['id'] == pid][0])['title'],
     'needs_to_manifest': needs,
-    'written_against': 'epsy/sigtools at /repo commit 5b8bfa1 by a sub-agent that saw only the property text and its own scratch worktree',
-    'verified': ['scratch copy of 5b8bfa1: demo.py exits 0 without the patch and 1 with it',
-                 'scratch copy of 5b8bfa1 + patch: pinned suite still 294 passed (tools/seed_verify.sh)'],
+    'base_commit': base,
+    'written_against': 'epsy/sigtools at /repo commit %s by a sub-agent' % base + ' that saw only the property text and its own scratch worktree',
+    'verified': ['scratch copy of %s: demo.py exits 0 without the patch and 1 with it' % base,
+                 'scratch copy of %s + patch: pinned suite still 294 passed (tools/seed_verify.sh)' % base],
     'detected_by': dict(x.split(':') for x in detected.split(',')) if detected != 'none' else {},
-    'ran': 'tools/seed_verify.sh seeded/%s-%s %s-%s <checks> (patch applied to a scratch copy of /repo HEAD, checks run with VERIF_REPO)' % (pid, m, pid, m),
+    'ran': 'SEED_BASE=%s tools/seed_verify.sh seeded/%s-%s %s-%s <checks> (patch applied to a scratch copy of /repo HEAD, checks run with VERIF_REPO)' % (base, pid, name or m, pid, name or m),
 }
 if head_patch:
     shutil.copy(head_patch, os.path.join(dst, 'patch_for_head.diff'))
